@@ -85,6 +85,10 @@ def render_alt(a):
     if form == "fallible":
         f = a["fail"]
         return "%s =>? fnode(%d, kids![%s], x%d %% %d == %d)," % (body, a["tag"], ", ".join(names), f["s"] - 1, f["m"], f["r"])
+    if form == "refnone":
+        return "%s => None," % body
+    if form == "boxnew":
+        return "%s => Box::new(<>)," % body
     if not parts:
         return "=> (),"
     return "%s," % body
@@ -106,7 +110,13 @@ def render(sg, algo="lane", backend="table"):
         lines.append(core.ALGOS[algo][0])
     if core.BACKENDS[backend]:
         lines.append(core.BACKENDS[backend])
-    lines.append("grammar;")
+    ge = sg.get("generic")
+    if ge:
+        # type and lifetime parameters with a where-clause relating the two; the nonterminal types mention only one
+        # of them (through an unreachable nonterminal), the other occurs in the grammar parameter alone
+        lines.append("grammar<%s, %s>(gp: usize, ph: &%s [%s]) where %s: %s;" % (ge["lt"], ge["tp"], ge["lt"], ge["tp"], ge["tp"], ge["lt"]))
+    else:
+        lines.append("grammar;")
     BARE.clear()
     BARE.update(sg.get("bare", {}))
     conv = ", ".join('%s => Tok::T%d(<usize>)' % (BARE.get(t) or '"%s"' % t, i) for i, t in enumerate(sg["ts"]))
@@ -114,9 +124,15 @@ def render(sg, algo="lane", backend="table"):
     for it in sg["items"]:
         head = it["name"] + ("<%s>" % ", ".join(it["params"]) if it["params"] else "")
         vis = "pub " if it["name"] in sg["starts"] else ""
-        ty = {"V": ": V", "unit": ": ()", "infer": ""}[it["kind"]]
+        # declared types that mention a macro parameter behind a reference / inside a generic (C19: the parameter
+        # must be replaced by the argument's type in every instance)
+        ty = {"V": ": V", "unit": ": ()", "infer": "", "ref": ": Option<&'static %s>" % (it["params"] or ["V"])[0],
+              "box": ": Box<%s>" % (it["params"] or ["V"])[0]}[it["kind"]]
         body = "\n".join("    " + render_prec(a) + render_alt(a) for a in it["alts"])
         lines.append("%s%s%s = {\n%s\n};" % (vis, head, ty, body))
+    if ge:
+        t0 = BARE.get(sg["ts"][0]) or '"%s"' % sg["ts"][0]
+        lines.append("%s: Option<%s> = %s %s => None;" % (ge["nt"], ge["tp"], t0, t0))
     return "\n".join(lines) + "\n"
 
 
@@ -124,7 +140,8 @@ NOFAIL = {"on": False, "s": 1, "m": 1, "r": 0}
 
 
 def alt_P(a, unit):
-    form = {"usera": "user"}.get(a["form"], a["form"])
+    # (refnone: the value is None whatever was parsed; boxnew: the value of the selected symbol, boxed)
+    form = {"usera": "user", "refnone": "noneo", "boxnew": "none"}.get(a["form"], a["form"])
     syms = []
     n = 0
     for e in a["rhs"]:
@@ -183,7 +200,7 @@ def macro_grammar(rng, idx):
         items.append({"name": name, "params": [], "kind": "V", "alts": alts})
         plain_v.append(name)
     macros = {}
-    chosen = rng.sample(["Lst", "Pr", "Op", "Cd", "Tr", "Pl", "Sep", "Sp", "Sp"], rng.choice([2, 3, 3]))
+    chosen = rng.sample(["Lst", "Pr", "Op", "Cd", "Tr", "Pl", "Sep", "Sp", "Sp", "Rf", "Bd"], rng.choice([2, 3, 3]))
     chosen = list(dict.fromkeys(chosen))
     for m in chosen:
         if m == "Lst":     # the tutorial's Comma<E>: (<E> sep)* E?
@@ -203,6 +220,12 @@ def macro_grammar(rng, idx):
             else:
                 rhs = [T(rng.choice(ts)), LOC("R"), PARAM("E", True), LOC("L"), T(rng.choice(ts)), LOC("R")]
             macros[m] = {"name": m, "params": ["E"], "kind": "V", "alts": [alt(rhs, "user", nt())], "argkinds": ["nonempty"]}
+        elif m == "Rf":    # declared type with the parameter behind a reference
+            macros[m] = {"name": m, "params": ["E"], "kind": "ref", "alts": [alt([PARAM("E")], "refnone", 0)],
+                         "argkinds": ["nonempty"]}
+        elif m == "Bd":    # declared type with the parameter inside a generic
+            macros[m] = {"name": m, "params": ["E"], "kind": "box", "alts": [alt([PARAM("E", True)], "boxnew", 0)],
+                         "argkinds": ["any"]}
         elif m == "Pr":
             a1 = alt([PARAM("X", True), PARAM("Y", True)], "usera", nt())
             a2 = alt([T(rng.choice(ts)), PARAM("Y", True), T(rng.choice(ts))], "user", nt())
@@ -289,9 +312,26 @@ def macro_grammar(rng, idx):
     sg = {"id": "m%04d" % idx, "ts": ts, "starts": ["S"], "items": items, "sugar": True, "no_machine": True,
           "nts": ["S"], "prods": [], "kinds": {"S": "V"}}
     if rng.random() < 0.3:
+        sg["generic"] = {"lt": rng.choice(["'gx", "'__a", "'l0"]), "tp": rng.choice(["GT", "__T", "T0"]), "nt": "Zz9Only"}
+        sg["grammar_param"] = "gp"
+    if rng.random() < 0.3:
         # a terminal declared with a bare name (`TA => ..` in the extern block) and a macro parameter of the same
         # name: inside the macro the parameter shadows the terminal
         sg["bare"] = {ts[0]: "TA"}
+
+        # a bare-named terminal cannot be the argument a macro condition inspects (LALRPOP wants a string literal
+        # there): such arguments name another terminal
+        def fix_term_args(e):
+            if e["k"] == "macro" and e["n"] in macros:
+                for ak, a_ in zip(macros[e["n"]]["argkinds"], e["args"]):
+                    if ak == "term" and a_["k"] == "t" and a_["n"] == ts[0]:
+                        a_["n"] = ts[1]
+            for x in e.get("args", []) + e.get("syms", []) + ([e["s"]] if "s" in e else []):
+                fix_term_args(x)
+        for it_ in items:
+            for a_ in it_["alts"]:
+                for e_ in a_["rhs"]:
+                    fix_term_args(e_)
         ms = [it for it in items if it["params"]]
         if ms:
             it = rng.choice(ms)
